@@ -1699,6 +1699,8 @@ func (sc *serverConn) finishRequest(strm *Stream) bool {
 	}
 	fasthttpResponseHeaders(h, &sc.enc, &ctx.Response)
 
+	splitHeaderBlock(fr, h)
+
 	sc.write(fr)
 
 	if !hasBody {
@@ -1909,7 +1911,46 @@ func (sc *serverConn) write(fr *FrameHeader) {
 		if verifOn {
 			vWDrop(sc)
 		}
-		ReleaseFrameHeader(fr)
+
+		for fr != nil {
+			next := fr.next
+			ReleaseFrameHeader(fr)
+			fr = next
+		}
+	}
+}
+
+// splitHeaderBlock keeps a HEADERS frame within the frame size every peer
+// accepts. A header block larger than that goes out as HEADERS followed by
+// CONTINUATION frames, chained to the first frame so that the write loop sends
+// them back to back: nothing may come between the frames of a header block
+// (RFC 7540 4.3), and the read loop queues frames of its own.
+func splitHeaderBlock(fr *FrameHeader, h *Headers) {
+	if len(h.rawHeaders) <= maxDataFrameSize {
+		return
+	}
+
+	rest := h.rawHeaders[maxDataFrameSize:]
+	h.rawHeaders = h.rawHeaders[:maxDataFrameSize]
+	h.SetEndHeaders(false)
+
+	for tail := fr; len(rest) > 0; {
+		n := len(rest)
+		if n > maxDataFrameSize {
+			n = maxDataFrameSize
+		}
+
+		c := AcquireFrame(FrameContinuation).(*Continuation)
+		c.SetHeader(rest[:n])
+		rest = rest[n:]
+		c.SetEndHeaders(len(rest) == 0)
+
+		cfr := AcquireFrameHeader()
+		cfr.SetStream(fr.Stream())
+		cfr.SetBody(c)
+
+		tail.next = cfr
+		tail = cfr
 	}
 }
 
@@ -1922,6 +1963,18 @@ func (sc *serverConn) writeLoop() {
 
 	send := func(fr *FrameHeader) error {
 		_, err := fr.WriteTo(sc.bw)
+
+		// the rest of a header block goes out right behind its first frame
+		for next := fr.next; next != nil; {
+			if err == nil {
+				_, err = next.WriteTo(sc.bw)
+			}
+
+			after := next.next
+			ReleaseFrameHeader(next)
+			next = after
+		}
+
 		if err == nil && (len(sc.writer) == 0 || buffered > 10) {
 			err = sc.bw.Flush()
 			buffered = 0
